@@ -546,6 +546,12 @@ func (c *Compiler) compileDefine(
 		return c.errorf(node, "%q redeclared in this block", ident)
 	}
 
+	if exists && symbol.Scope == ScopeGlobal {
+		// a global declared in this block is assigned, its index is not a
+		// local slot.
+		return c.compileAssign(node, symbol, ident)
+	}
+
 	if symbol.Constant {
 		return c.errorf(node, "assignment to constant variable %q", ident)
 	}
